@@ -82,7 +82,7 @@ def run(ctx):
                     if dict(got.attrs) != dict(a.attrs) and kind != 'masked':
                         pass
                     for k, v in a.attrs.items():
-                        if k in ('_FillValue', 'missing_value') and k in got.encoding:
+                        if k in ('_FillValue', 'missing_value', 'scale_factor', 'add_offset') and k in got.encoding:
                             continue        # decoded by xarray on the way: now part of the encoding, written back on save
                         if k not in got.attrs or not numpy.array_equal(got.attrs[k], v):
                             ctx.report('property', f'{name}: attribute {k} not passed through', vcase)
